@@ -219,7 +219,7 @@ def _run_fuzz(job):
         kw.update(job["kwargs"])
     # whether a *result* is well-formed is C01's subject; here only the kind of outcome (result / library error / internal exception) matters
     res = conv.convert_case({"input": inp, "kwargs": kw, "events": False, "pass_warnings": job["idx"] % 2 == 0, "allow_malformed": True})
-    cfg = {"lists": [], "formname": "data", "omitid": False, "iname": False, "entity": False}
+    cfg = {"lists": [], "formname": "data", "omitid": False, "iname": False, "entity": False, "entlabel": False}
     trace = [{"ev": "init", "cfg": cfg, "nwarn0": 0},
              {"ev": "end", "status": res["status"], "cited": [], "mentions": [], "has_xform": bool(res.get("xform")), "residual": 0,
               "obs": {"inst": [], "body": [], "binds": [], "actions": [], "setv": [], "root": ""}, "src": {"binds": [], "defaults": [], "triggers": []}}]
